@@ -78,7 +78,7 @@ def _make_builder(terms, lab, hs, jw, pd, style):
     H = SparseOperatorBuilder(hilbert_space=hs)
     for t in qterms[:-1]:
         H.add_term(*t)
-    if len(qterms) > 1:
+    if len(qterms) > 1 and (hs is None or hs.sector is None):
         H.build_dense()
         H.terms
         H.matvec(np.ones(H.hilbert_space.size, dtype=H.get_dtype()))
@@ -139,6 +139,23 @@ def _coo_dense(H, D, **kw):
     return A
 
 
+def _coupling_dense(H, lab, n, by_config=False):
+    """table M[x][y] = coefficient returned for the coupled configuration y of x"""
+    D = 2 ** n
+    M = np.zeros((D, D), dtype=complex)
+    for x in range(D):
+        bits = [(x >> (n - 1 - s)) & 1 for s in range(n)]
+        if by_config:
+            cfgs, cs = H.config_coupling({lab.labels[s]: bits[s] for s in reversed(range(n))})
+            ys = [U.cfg_of([c[lab.labels[s]] for s in range(n)]) for c in cfgs]
+        else:
+            bjs, cs = H.flatconfig_coupling(np.array(bits, dtype=np.uint8))
+            ys = [U.cfg_of(b) for b in bjs]
+        for y, c in zip(ys, cs):
+            M[x, y] += c
+    return M
+
+
 def _local_dense(H, lab, n):
     Hk = H.build_local_terms()
     A = np.zeros((2 ** n, 2 ** n), dtype=complex)
@@ -158,7 +175,9 @@ def _full_reps(H, lab, n, scale, have_nx, rich):
     reps.append(_rep("build_matrix_ikron", "ikron", lambda: H.build_matrix_ikron(), D, scale))
     if have_nx:
         reps.append(_rep("build_mpo", "mpo", lambda: U.mpo_to_dense(H.build_mpo(), n), D, scale))
+    reps.append(_rep("flatconfig_coupling", "coupling", lambda: _coupling_dense(H, lab, n), D, scale))
     if rich:
+        reps.append(_rep("config_coupling", "coupling", lambda: _coupling_dense(H, lab, n, by_config=True), D, scale))
         reps.append(_rep("build_dense/complex128", "dense", lambda: H.build_dense(dtype=np.complex128), D, scale))
         reps.append(_rep("build_dense/complex64", "dense", lambda: H.build_dense(dtype=np.complex64), D, scale))
         for st in STYPES:
@@ -188,6 +207,28 @@ def _sector_arg(sym, sec, lab, form):
         if form % 3 == 1:
             return (ka, kb), "U1U1"
     return ((na, ka), (nb, kb)), ("U1U1" if form % 2 == 0 else None)
+
+
+def _kernels_stay_in_bounds(Hs, hs_s, basis, kw):
+    """Driver-side guard (no verdict): the matrix-free kernels write `out[rank(coupled config)]` without a
+    bounds check, so they are only driven when the sector's ranking round-trips and the COO build of the
+    same operator (which only writes its own buffers) stays inside [0, size)."""
+    try:
+        m = len(basis)
+        if len(set(basis)) != m:
+            return False
+        for r in range(m):
+            if int(hs_s.flatconfig_to_rank(hs_s.rank_to_flatconfig(r))) != r:
+                return False
+        data, rows, cols, d = Hs.build_coo_data(**kw)
+        rows, cols = np.asarray(rows), np.asarray(cols)
+        if int(d) != m:
+            return False
+        if rows.size and (rows.min() < 0 or cols.min() < 0 or rows.max() >= m or cols.max() >= m):
+            return False
+        return True
+    except Exception:  # noqa
+        return False
 
 
 def _sector_obs(terms, lab, n, jw, pd, style, sym, sec, regsA, form, how, scale, H_plain):
@@ -238,6 +279,7 @@ def _sector_obs(terms, lab, n, jw, pd, style, sym, sec, regsA, form, how, scale,
                    for _, ops in Hs.terms)
     except Exception:  # noqa
         safe = False
+    safe = safe and _kernels_stay_in_bounds(Hs, hs_s, sc["basis"], kw)
     if safe:
         sc["reps"].append(_rep("matvec", "matvec", mv, m, scale))
         sc["reps"].append(_rep("aslinearoperator", "linop", lambda: Hs.aslinearoperator(**kw) @ np.eye(m, dtype=dt), m, scale))
@@ -435,10 +477,57 @@ def observe_ranktables(nmax, nmax_species, rng, dispatch_rank_syms, config_level
     return recs
 
 
+def observe_mixed_tables(rng, thorough):
+    """unconstrained spaces with arbitrary local dimensions (mixed radix kernels), orderings, with_ordering"""
+    from quimb.operator import HilbertSpace
+
+    recs = []
+    dimlists = [[3], [2, 3], [3, 2], [2, 2, 3], [4, 1, 2], [3, 3, 3], [2, 5, 2, 3], [1, 1], [6, 2]]
+    if thorough:
+        dimlists += [[3, 4, 5], [2, 3, 2, 3, 2], [7, 3], [2, 2, 2, 2, 3], [5, 4, 3, 2]]
+    for di, dims in enumerate(dimlists):
+        n = len(dims)
+        labels = ["m%d" % i for i in range(n)]
+        for variant in range(3):
+            r = {"ev": "mixedtable", "tid": 4, "dims": [int(d) for d in dims], "variant": variant, "size": 0, "tab": [], "inv": [],
+                 "exc": "", "iexc": "", "order_ok": True}
+            try:
+                if variant == 0:
+                    hs = HilbertSpace(n, dims=list(dims))
+                    want = list(range(n))
+                    wdims = list(dims)
+                elif variant == 1:
+                    # dict of site -> dim, explicit permutation as order
+                    perm = [int(i) for i in rng.permutation(n)]
+                    want = [labels[i] for i in perm]
+                    wdims = [dims[i] for i in perm]
+                    hs = HilbertSpace({labels[i]: dims[i] for i in range(n)}, order=list(want))
+                else:
+                    # with_ordering on an existing space
+                    perm = [int(i) for i in rng.permutation(n)]
+                    want = [labels[i] for i in perm]
+                    wdims = [dims[i] for i in perm]
+                    hs = HilbertSpace(labels, dims=list(dims)).with_ordering(list(want))
+                r["dims"] = [int(d) for d in wdims]
+                r["order_ok"] = bool(tuple(hs.sites) == tuple(want) and [int(x) for x in hs.sizes] == [int(d) for d in wdims])
+                r["size"] = int(hs.size)
+                fcs = [hs.rank_to_flatconfig(k) for k in range(r["size"])]
+                r["tab"] = [[int(x) for x in fc] for fc in fcs]
+                try:
+                    inv = [hs.flatconfig_to_rank(fc) for fc in fcs]
+                    r["inv"] = [int(v) if float(v) == int(v) else -1 for v in inv]
+                except Exception as ex:  # noqa
+                    r["iexc"] = type(ex).__name__
+            except Exception as ex:  # noqa
+                r["exc"] = type(ex).__name__
+            recs.append(r)
+    return recs
+
+
 # ---------------------------------------------------------------------------- relational tier
 
-def _rel(recs, case, kind, name, fn, ref, tol=1e-9, sector=False, allowed_exc=False):
-    r = {"ev": "rel", "tid": 2, "case": case, "kind": kind, "name": name, "q": 0, "exc": "", "sector": bool(sector),
+def _rel(recs, case, kind, name, fn, ref, tol=1e-9, sector=False, allowed_exc=False, terms=""):
+    r = {"ev": "rel", "tid": 2, "case": case, "terms_repr": terms, "kind": kind, "name": name, "q": 0, "exc": "", "sector": bool(sector),
          "allowed_exc": bool(allowed_exc)}
     try:
         with warnings.catch_warnings():
@@ -460,14 +549,21 @@ def observe_float_cases(rng, ncases, nrange, have_nx):
         jw = mode in (1, 3)
         pd = int(rng.integers(3)) if mode >= 2 else 0
         cons = [None, "U1", "Z2", "U1"][mode]
-        vocab = U.OPS if not jw else ["+", "-", "n", "z", "h", "sn", "I", "sz"]
-        terms = U.rand_terms(rng, n, int(rng.integers(2, 9)), 3, vocab, conserving=cons)
+        vocab = U.OPS if not jw else ["+", "-", "n", "z", "h", "I"]
+        # the float tier has no exact oracle to attribute a failure to the known same-register-product
+        # defect, so it stays outside that input class (the exact tier covers it exhaustively)
+        for _try in range(50):
+            terms = U.rand_terms(rng, n, int(rng.integers(2, 9)), 3, vocab, samesite_p=0.0, conserving=cons, diag=("n", "z", "h"))
+            if not U.bug_class(terms, jw):
+                break
+        else:
+            continue
         terms = [(complex(rng.normal(), rng.normal() if rng.random() < 0.5 else 0.0), ops) for _, ops in terms]
         labs = U.labellings(n, rng, with_species=True)
         lab = labs[int(rng.integers(len(labs)))]
         if lab.auto:
             lab = labs[0]
-        case = "float-%d:n=%d,jw=%s,pd=%d,%s" % (ci, n, jw, pd, lab.name)
+        case = "float-%d:n=%d,jw=%s,pd=%d,%s,style=%d|%r" % (ci, n, jw, pd, lab.name, ci % 3, terms)
         D = 2 ** n
         ref = U.ref_matrix(terms, n, fermi=jw)
         try:
@@ -507,9 +603,10 @@ def observe_float_cases(rng, ncases, nrange, have_nx):
             _rel(recs, case, "dense", "build_dense@" + nm, lambda: H.build_dense(sector=sector, symmetry=symmetry), sub, sector=True, allowed_exc=leaky)
             _rel(recs, case, "sparse", "build_sparse_matrix@" + nm, lambda: H.build_sparse_matrix(sector=sector, symmetry=symmetry).toarray(), sub, sector=True, allowed_exc=leaky)
             xs = x[: len(basis), 0].astype(np.complex128)
-            flab = [(U.QNAME_INV.get(o, o), lab.labels.index(s_)) for _, ops_ in H.terms for o, s_ in ops_]
             if not all(U.term_keeps_charge([(U.QNAME_INV.get(o, o), lab.labels.index(s_)) for o, s_ in ops_], sym, regsA) for _, ops_ in H.terms):
                 continue  # the matrix-free kernel would write out of bounds
+            if not _kernels_stay_in_bounds(H, hs_s, basis, {"sector": sector, "symmetry": symmetry}):
+                continue
             _rel(recs, case, "matvec", "matvec@" + nm, lambda: H.matvec(xs, sector=sector, symmetry=symmetry), sub @ xs, sector=True, allowed_exc=leaky)
     return recs
 
@@ -543,7 +640,7 @@ def observe_models_operator(rng, have_nx):
         class _L:  # minimal labelling view for _local_dense
             labels = sites
         D = 2 ** n
-        _rel(recs, name, "dense", "build_dense(full)", lambda: H.build_dense(sector=None) if hs.sector is None else _full_of(H), ref)
+        _rel(recs, name, "dense", "build_dense(full)", lambda: H.build_dense(sector=None) if hs.sector is None else _full_of(H, fermi), ref)
         if have_nx:
             _rel(recs, name, "mpo", "build_mpo", lambda: U.mpo_to_dense(H.build_mpo(), n), ref)
         _rel(recs, name, "local", "build_local_terms", lambda: _local_dense(H, _L, n), ref)
@@ -555,12 +652,12 @@ def observe_models_operator(rng, have_nx):
     return recs
 
 
-def _full_of(H):
+def _full_of(H, fermi):
     """full-space dense matrix of a builder whose HilbertSpace carries a default sector: rebuild on a plain space"""
     from quimb.operator import HilbertSpace, SparseOperatorBuilder
 
     hs = H.hilbert_space
-    H2 = SparseOperatorBuilder(hilbert_space=HilbertSpace(list(hs.sites)), jordan_wigner=H._transform_jordan_wigner)
+    H2 = SparseOperatorBuilder(hilbert_space=HilbertSpace(list(hs.sites)), jordan_wigner=fermi)
     for c, ops in H.terms_raw:
         H2.add_term(c, *ops)
     return H2.build_dense()
@@ -635,8 +732,9 @@ def observe_models_1d(rng, Ls, thorough):
                 sb += 0.5, "-", "+"
                 sb += -0.75, "Z", "Z"
                 sb -= 0.25, "X"
-                sb[1, 2] += 1.5, "Z", "X"
-                sb[1, 2] += 0.5, "Y", "Y"
+                if L >= 3:
+                    sb[1, 2] += 1.5, "Z", "X"
+                    sb[1, 2] += 0.5, "Y", "Y"
                 sb[0] += 2.0, "Z"
                 sb[L - 1] += -1.0, "Y"
 
@@ -653,7 +751,7 @@ def observe_models_1d(rng, Ls, thorough):
                     if i + 1 == L and not cyclic:
                         break
                     jn = (i + 1) % L
-                    two = [(1.5, "Z", "X"), (0.5, "Y", "Y")] if (i, i + 1) == (1, 2) else [(0.5, "+", "-"), (0.5, "-", "+"), (-0.75, "Z", "Z")]
+                    two = [(1.5, "Z", "X"), (0.5, "Y", "Y")] if (i, i + 1) == (1, 2) and L >= 3 else [(0.5, "+", "-"), (0.5, "-", "+"), (-0.75, "Z", "Z")]
                     for f, s1, s2 in two:
                         ref += f * U.embed(np.kron(sop(s1), sop(s2)), [i, jn], L, d=d)
                 add("SpinHam1D", L, cyclic, S, "build_mpo", lambda: U.mpo_to_dense(sb.build_mpo(L), L), ref)
@@ -738,7 +836,8 @@ def run(ctx):
                                dispatch_rank_syms=(["U1"] if quick else ["none", "Z2", "U1", "U1U1"]),
                                config_level_upto=(6 if quick else 9))
     ctx.sample({"ranktable": {k: rrecs[5][k] for k in ("sym", "sec", "n", "how", "labelling", "tab", "inv")}})
-    fails += ctx.validate("C19_Trace", "Trace.cfg", rrecs, name="ranktables", ntraces=len(rrecs), chunk=4000)
+    rrecs_m = observe_mixed_tables(rng, not quick)
+    fails += ctx.validate("C19_Trace", "Trace.cfg", rrecs + rrecs_m, name="ranktables", ntraces=len(rrecs) + len(rrecs_m), chunk=4000)
 
     # ---- 6. relational tier: floats / larger n / built-in models / 1D spin-chain builders
     frecs = observe_float_cases(rng, 24 if quick else 160, (4, 6) if quick else (4, 8), have_nx)
@@ -748,19 +847,28 @@ def run(ctx):
 
     notes = [f for f in fails if f["clause"].startswith("NOTE:")]
     real = [f for f in fails if not f["clause"].startswith("NOTE:")]
-    for nt in notes[:10]:
+    drift = [f for f in notes if f["clause"] == "NOTE:ModelDrift"]
+    rowconv = [f for f in notes if f["clause"] == "NOTE:CouplingRowConvention"]
+    for nt in drift[:8]:
         rec = nt["record"]
         ctx.notes.append("model-drift (%s): %s" % (rec["ev"], {k: rec[k] for k in ("terms", "jw", "pd", "sym", "sec", "n", "how") if k in rec}))
-    ctx.extra["model_drift_points"] = len(notes)
+    if rowconv:
+        rec = rowconv[0]["record"]
+        ctx.notes.append("coupling convention: flatconfig_coupling/config_coupling return <y|H|x> for the pair (x -> y) where the "
+                         "documentation says <x|H|y> (%d non-symmetric cases, e.g. terms=%s jw=%s pd=%s)"
+                         % (len(rowconv), rec["terms"], rec["jw"], rec["pd"]))
+    ctx.extra["model_drift_points"] = len(drift)
+    ctx.extra["coupling_transposed_cases"] = len(rowconv)
     ctx.extra["networkx_available"] = have_nx
     ctx.extra["replayed_tlc_cases"] = len(cases)
     ctx.extra["random_exact_cases"] = ncase
     ctx.extra["rank_tables"] = len(rrecs)
+    ctx.extra["mixed_radix_tables"] = len(rrecs_m)
     ctx.extra["rank_table_entries"] = int(sum(len(r["tab"]) for r in rrecs))
     ctx.extra["relational_records"] = len(frecs) + len(mrecs)
     ctx.clauses.update([
         "BuilderAccepts", "OrderingHonoured", "FinalTermsDenote", "PauliOnly", "SameSiteProductScalar",
-        "DenseEq", "SparseEq", "MatvecEq", "LinopEq", "LocalTermsEq", "IkronEq", "MpoEq",
+        "DenseEq", "SparseEq", "MatvecEq", "LinopEq", "LocalTermsEq", "IkronEq", "MpoEq", "CouplingEq", "NOTE:CouplingRowConvention",
         "SectorBasisIsRanking", "SectorDenseEq", "SectorSparseEq", "SectorMatvecEq", "SectorLinopEq",
         "RankReturns", "UnrankReturns", "RankSize", "RankInSector", "RankInjective", "RankRoundTrip",
         "Rel*Eq", "RelSector*Eq", "ModelsAgree",
